@@ -317,7 +317,9 @@ class OnionTor(object):
     """A real TorControlProtocol (bootstrapped) talking to a scripted control port that knows
     ADD_ONION / DEL_ONION / SETCONF / SETEVENTS and the queries TorConfig.from_protocol makes."""
 
-    def __init__(self, add_onion=None, setconf=None, version="0.4.8.10", conf=None):
+    def __init__(self, add_onion=None, setconf=None, version="0.4.8.10", conf=None, del_onion=None):
+        # del_onion: callable(line) -> reply dict for DEL_ONION (default: 250 OK)
+        self._del_onion = del_onion
         # conf: {option name: (config/names type, GETCONF value | None=unset)} - further options this
         # Tor knows (e.g. {"HiddenServiceNonAnonymousMode": ("Boolean", "0")}), so that what a
         # bootstrapped TorConfig knows about Tor's configuration can vary
@@ -344,7 +346,7 @@ class OnionTor(object):
             return self._add_onion(line) if self._add_onion else None
         if word == "DEL_ONION":
             self.del_onion_lines.append(line)
-            return wire.ok()
+            return self._del_onion(line) if self._del_onion else wire.ok()
         if word == "SETEVENTS":
             self.setevents_lines.append(line)
             return wire.ok()
